@@ -167,6 +167,17 @@ CHECKS = {
         design='§5 C17'),
 }
 
+CHECKS['C19'] = dict(
+    technique='exhaustive enumeration of a (class, shape) x size grid with deterministic step counting '
+              '(sys.monitoring LINE events)',
+    text='~130 (class, shape) pairs - hand-written text and vector shapes (many items, one huge item, no separator, '
+         'only separators, many unknown / late-failing items), a generic repeat-an-item shape for every vector class, '
+         'and maximal-declared-count-with-no-data shapes - x 6 sizes n0*2^i (9 thorough): steps stay within 1.5x the '
+         'linear extrapolation, doubling ratio <= 2.6, call depth constant, work independent of declared counts; plus '
+         'every truncation and single-byte substitution of every seed of every class against a seed-calibrated linear '
+         'bound. A finite-grid statement, not an asymptotic proof.',
+    design='§5 C19')
+
 ALL = ['C%02d' % i for i in range(1, 20)]
 
 
